@@ -89,16 +89,16 @@ Section Inv.
     - intros; tauto.
   Qed.
 
-  Lemma ginv_nrt p fuel : ginv (gv (xnrt_loop gen p fuel (xnrt_init p))).
-  Proof. apply (nrt_loop_gv gen p ginv ginv_seed ginv_draw ginv_read). apply ginv_init. Qed.
+  Lemma ginv_nrt dd p fuel : ginv (gv (xnrt_loop gen dd p fuel (xnrt_init p))).
+  Proof. apply (nrt_loop_gv gen dd p ginv ginv_seed ginv_draw ginv_read). apply ginv_init. Qed.
   Lemma ginv_rt off p t0 sched : ginv (gv (xs (xrt_run gen off p t0 sched))).
   Proof. apply (rt_run_gv gen p ginv ginv_seed ginv_draw ginv_read). apply ginv_init. Qed.
 
   (* ---- the statements ------------------------------------------------------------------------- *)
-  Lemma gen_stream_nrt p fuel g seed hist :
-    nth_error (x_gens (xnrt_loop gen p fuel (xnrt_init p))) g = Some (seed, hist) ->
-    draws_of g (x_vals (xnrt_loop gen p fuel (xnrt_init p))) = stream gen seed hist.
-  Proof. intros H. exact (proj1 (ginv_nrt p fuel) g seed hist H). Qed.
+  Lemma gen_stream_nrt dd p fuel g seed hist :
+    nth_error (x_gens (xnrt_loop gen dd p fuel (xnrt_init p))) g = Some (seed, hist) ->
+    draws_of g (x_vals (xnrt_loop gen dd p fuel (xnrt_init p))) = stream gen seed hist.
+  Proof. intros H. exact (proj1 (ginv_nrt dd p fuel) g seed hist H). Qed.
   Lemma gen_stream_rt off p t0 sched g seed hist :
     nth_error (x_gens (xs (xrt_run gen off p t0 sched))) g = Some (seed, hist) ->
     draws_of g (x_vals (xs (xrt_run gen off p t0 sched))) = stream gen seed hist.
